@@ -207,6 +207,10 @@ pub fn c01_stream_case(rec: &mut Rec, rng: &mut Rng, stream: &[u8], limit: usize
     }
 }
 
+fn n_sched_for(thorough: bool) -> usize {
+    if thorough { 12 } else { 8 }
+}
+
 pub fn c01(rec: &mut Rec, rng: &mut Rng, thorough: bool) {
     regress_f1(rec);
     // a body that ends exactly where a full 1024-byte read ends (head in a read of its own, Content-Length a multiple of
@@ -238,6 +242,21 @@ pub fn c01(rec: &mut Rec, rng: &mut Rng, thorough: bool) {
     }
     for _ in 0..(if thorough { 3000 } else { 120 }) {
         two_connections_case(rec, rng, "C01");
+    }
+    // many SHORT header lines (more than 16, 32, 64, 128 of them inside one 1024-byte read) and many tiny pipelined
+    // requests: how many lines or requests a read happens to complete is no business of the result
+    for count in [15usize, 16, 17, 31, 32, 33, 63, 64, 65, 66, 100, 127, 128, 129, 200] {
+        let mut r = b"PUT /many HTTP/1.1\r\n".to_vec();
+        for k in 0..count {
+            r.extend_from_slice(format!("X{}:{}\r\n", k, k % 10).as_bytes());
+        }
+        r.extend_from_slice(b"Content-Length: 3\r\n\r\nabcGET /next HTTP/1.1\r\n\r\n");
+        c01_stream_case(rec, rng, &r, 51200, n_sched_for(thorough), "many-header-lines");
+        let mut p = vec![];
+        for k in 0..count {
+            p.extend_from_slice(format!("GET /{} HTTP/1.1\r\n\r\n", k).as_bytes());
+        }
+        c01_stream_case(rec, rng, &p, 51200, n_sched_for(thorough), "many-tiny-requests");
     }
     let n = if thorough { 6000 } else { 200 };
     let n_sched = if thorough { 12 } else { 8 };
@@ -422,6 +441,40 @@ pub fn c02(rec: &mut Rec, rng: &mut Rng, thorough: bool) {
             stream.extend_from_slice(b"abc");
             let (_d, s) = run_stream(rec, rng, limit, &[stream.clone()], 0, 0);
             rec.op(&format!("spec feed {} {}", limit, hx(&stream)), &s.line());
+        }
+    }
+    // sizes the grammar does not bound (only the 1024-byte line limit applies): long targets, long field names and
+    // values, many header lines, many pipelined requests — delivered verbatim, in one piece and byte by byte
+    let mut sized: Vec<(String, Vec<u8>)> = vec![];
+    for len in [15usize, 16, 17, 31, 32, 33, 63, 64, 65, 127, 128, 129, 255, 256, 257, 511, 512, 513, 900] {
+        sized.push((format!("long-target-{}", len), format!("GET /{} HTTP/1.1\r\n\r\n", "u".repeat(len - 1)).into_bytes()));
+        sized.push((format!("long-name-{}", len), format!("GET /n HTTP/1.1\r\nX-{}: v\r\nX-Tail: t\r\n\r\n", "n".repeat(len - 2)).into_bytes()));
+        sized.push((format!("long-value-{}", len), format!("PUT /v HTTP/1.1\r\nX-V: {}\r\nContent-Length: 2\r\n\r\nab", "v".repeat(len)).into_bytes()));
+    }
+    for count in [16usize, 17, 32, 33, 64, 65, 100, 128, 129, 255, 256, 257] {
+        let mut r = b"PUT /many HTTP/1.1\r\n".to_vec();
+        for k in 0..count {
+            r.extend_from_slice(format!("X-F{}: {}\r\n", k, k).as_bytes());
+        }
+        r.extend_from_slice(b"Content-Length: 3\r\n\r\nabc");
+        sized.push((format!("many-lines-{}", count), r));
+        let mut p = vec![];
+        for k in 0..count {
+            p.extend_from_slice(format!("GET /p{} HTTP/1.1\r\n\r\n", k).as_bytes());
+        }
+        sized.push((format!("many-requests-{}", count), p));
+    }
+    for (name, stream) in sized {
+        rec.case(&name);
+        rec.nontrivial();
+        let (_d, s) = run_stream(rec, rng, 51200, &[stream.clone()], 0, 0);
+        rec.op(&format!("spec feed {} {}", 51200, hx(&stream)), &s.line());
+        if stream.len() <= 1200 {
+            let bytes: Vec<Vec<u8>> = stream.iter().map(|b| vec![*b]).collect();
+            let (_d2, s2) = run_stream(rec, rng, 51200, &bytes, 0, 0);
+            if s2.line() != s.line() {
+                rec.oracle_fail("C02", &format!("{}: fed in one piece: {} — fed one byte per read: {}", name, s.line(), s2.line()), &[format!("spec feed {} {}", 51200, hx(&stream))]);
+            }
         }
     }
 }
@@ -968,6 +1021,37 @@ pub fn c04(rec: &mut Rec, rng: &mut Rng, thorough: bool) {
 }
 
 pub fn c06(rec: &mut Rec, rng: &mut Rng, thorough: bool) {
+    // many responses queued at once, of sizes around private-buffer boundaries, drained by short and full writes: the
+    // accepted bytes are the serialized responses in enqueue order, whatever their number and sizes
+    for (k, count) in [3usize, 8, 9, 16, 17, 33, 64, 65, 130, 257].into_iter().enumerate() {
+        rec.case("many-queued");
+        rec.nontrivial();
+        let mut d = ConnDriver::new(rec, 51200);
+        let mut expected: Vec<u8> = vec![];
+        for j in 0..count {
+            let size = [0usize, 1, 15, 16, 17, 63, 64, 65, 255, 256, 257, 1023, 1024, 1025, 4096, 4097][(j + k) % 16];
+            let r = RespSpec { v11: j % 2 == 0, code: 200, ops: vec![BOp::Body(gen::body_bytes(rng, size))] };
+            expected.extend_from_slice(&crate::suites::response::serialize(&r));
+            d.enqueue(rec, &r);
+        }
+        let mut accepted: Vec<u8> = vec![];
+        let mut guard = 0;
+        while d.pending_write() && guard < 20000 {
+            guard += 1;
+            let w = match (guard + k) % 5 {
+                0 => WAct::Accept(1),
+                1 => WAct::Intr,
+                2 => WAct::Accept(1 << 30),
+                3 => WAct::Accept(700),
+                _ => WAct::Accept(64),
+            };
+            let (_res, bytes) = d.write(rec, w);
+            accepted.extend_from_slice(&bytes);
+        }
+        if accepted != expected {
+            rec.oracle_fail("C06", &format!("{} responses queued at once: the stream accepted {} bytes, the serialized responses in enqueue order are {} bytes (or differ)", count, accepted.len(), expected.len()), &d.log);
+        }
+    }
     let n = if thorough { 30000 } else { 1200 };
     for i in 0..n {
         rec.case("write-sequence");
